@@ -76,6 +76,10 @@ def table_v(ctx: Ctx, chk) -> None:
     ok = ok and len(setp) == 1 and canon_sa(ctx, cn, init, setp[0].args[0]) == "get_protocol('1.4')"
     if ok:
         chk.ok(rule, f"{init.fq}::initial protocol", "_protocol = get_protocol('1.4'), schema set to it, _protocol_version = None", init.where)
+    elif not prot or not ver or not setp:
+        # the initial state is not set by plain stores in the constructor (a state object, a derived property ...):
+        # nothing here says it is wrong - this layout is not modelled
+        raise AnalysisError(f"TABLE-V: Gateway.__init__ does not set the initial protocol state by plain stores (protocol stores: {len(prot)}, version stores: {len(ver)}, set_protocol calls: {len(setp)}) - layout not modelled")
     else:
         chk.refute(rule, f"{init.fq}::initial protocol", "a new gateway does not start with protocol 1.4 in force (protocol, schema context) and version None", init.where)
 
